@@ -6,6 +6,8 @@ invariant `StateOk` is C15's.)
 -/
 import ScyllaVerif.Model.C05TabletHistory
 import ScyllaVerif.Props.C15
+import ScyllaVerif.Props.C05
+import Std.Data.String.ToNat
 
 namespace ScyllaVerif.Props.C05Tablets
 open ScyllaVerif.Tablets ScyllaVerif.TabletsRefresh ScyllaVerif.C05TabletHistory
@@ -191,6 +193,218 @@ theorem thplan_replicas_of_last_metadata (kss : List (String × Bool × List Str
     obtain ⟨p, hp, h1, h2, h3, h4⟩ := known_of_last_metadata _ peers kss _ k hk
     exact ⟨p, hp, h1, h2, by rw [← hkn]; exact h3, h4⟩
 
+/-! ### the state's replica lists satisfy `TabletOK`: the tablet-plan theorems of Props/C05.lean hold on every history -/
+
+section planOnHistory
+open ScyllaVerif.Plan ScyllaVerif.Routing
+open ScyllaVerif.Props.C05 (WF TabletOK Permitted)
+
+private theorem dcName_inj' {a b : Nat} (h : dcName a = dcName b) : a = b := by
+  unfold dcName at h
+  have := congrArg String.toList h
+  simp only [String.toList_append] at this
+  exact Nat.repr_inj.mp (String.ext_iff.mpr (List.append_cancel_left this))
+
+private theorem alGet_mem' {κ β : Type} [DecidableEq κ] (k : κ) (v : β) (m : List (κ × β)) (h : alGet k m = some v) :
+    (k, v) ∈ m := by
+  induction m with
+  | nil => simp [alGet] at h
+  | cons e m ih =>
+    obtain ⟨k0, v0⟩ := e
+    simp only [alGet] at h
+    split at h
+    · rename_i hk; cases h; subst hk; exact List.mem_cons_self
+    · exact List.mem_cons_of_mem _ (ih h)
+
+private theorem lookup_mem' {xs : List Tablet} {tok : Int} {t : Tablet} (h : tabletForToken xs tok = some t) : t ∈ xs := by
+  unfold tabletForToken at h
+  simp only [] at h
+  split at h
+  · rename_i u hu
+    split at h
+    · cases h; exact List.mem_of_getElem? hu
+    · cases h
+  · cases h
+
+/-- The nodes the policy's view is resolved against are the nodes of the state: `known_nodes` has, for the host id of
+each of them, an object with that node's datacenter; and host ids identify nodes across the ring and that list (both are
+established by `ClusterState::new` / `new_updated` from ONE peer list: `nodesAgree_of_last_refresh`, `WF`). -/
+structure NodesAgree (cl : Cluster) (cs : CState) (nodes : List Ring.Node) : Prop where
+  dc : ∀ n ∈ nodes, ∀ k, alGet n.id cs.known = some k → k.node.dc = n.dc.map dcName
+  ids : ∀ a b : Ring.Node, (a ∈ allNodes cl ∨ a ∈ nodes) → (b ∈ allNodes cl ∨ b ∈ nodes) → a.id = b.id → a = b
+
+private theorem resolve_spec {nodes : List Ring.Node} {p : Rep} {r : SRep} (h : resolve nodes p = some r) :
+    r.1 ∈ nodes ∧ r.1.id = p.1.hostId ∧ r.2 = p.2 := by
+  unfold resolve at h
+  cases hf : nodes.find? (fun n => n.id == p.1.hostId) with
+  | none => rw [hf] at h; cases h
+  | some n =>
+    rw [hf] at h
+    simp only [Option.map_some, Option.some.injEq] at h
+    subst h
+    exact ⟨List.mem_of_find?_eq_some hf, by simpa using List.find?_some hf, rfl⟩
+
+/-- `TabletOK` for the lists of ONE tablet whose replica objects are current. -/
+private theorem tabletOK_of_current {cl : Cluster} {cs : CState} {nodes : List Ring.Node} (h : NodesAgree cl cs nodes)
+    (t : Tablet) (hc : Current (nodesOf cs.known) t) (hd : DcOk t) :
+    TabletOK cl (fun dc => ((match dc with
+      | some d => some (dcReplicas t (dcName d))
+      | none => some t.replicas.all).getD []).filterMap (resolve nodes)) := by
+  have hdcOf : ∀ p ∈ t.replicas.all, ∀ r, resolve nodes p = some r → p.1.dc = r.1.dc.map dcName := by
+    intro p hp r hr
+    obtain ⟨hrn, hid, _⟩ := resolve_spec hr
+    have := hc p hp
+    rw [alGet_nodesOf'] at this
+    cases hk : alGet p.1.hostId cs.known with
+    | none => rw [hk] at this; cases this
+    | some k =>
+      rw [hk] at this
+      simp only [Option.map_some, Option.some.injEq] at this
+      rw [← this]
+      exact h.dc r.1 hrn k (by rw [hid]; exact hk)
+  refine ⟨?_, ?_, ?_⟩
+  · intro d r hr
+    simp only [Option.getD_some] at hr ⊢
+    rw [hd (dcName d)] at hr
+    obtain ⟨p, hp, hpr⟩ := List.mem_filterMap.mp hr
+    obtain ⟨hpa, hpd⟩ := List.mem_filter.mp hp
+    refine ⟨List.mem_filterMap.mpr ⟨p, hpa, hpr⟩, ?_⟩
+    have h1 := hdcOf p hpa r hpr
+    have h2 : p.1.dc = some (dcName d) := by simpa using hpd
+    rw [h2] at h1
+    cases hrd : r.1.dc with
+    | none => rw [hrd] at h1; cases h1
+    | some d' =>
+      rw [hrd] at h1
+      simp only [Option.map_some, Option.some.injEq] at h1
+      rw [dcName_inj' h1]
+  · intro d r hr hrd
+    simp only [Option.getD_some] at hr ⊢
+    obtain ⟨p, hp, hpr⟩ := List.mem_filterMap.mp hr
+    rw [hd (dcName d)]
+    refine List.mem_filterMap.mpr ⟨p, List.mem_filter.mpr ⟨hp, ?_⟩, hpr⟩
+    have h1 := hdcOf p hp r hpr
+    rw [hrd] at h1
+    simpa using h1
+  · intro a b ha hb hid
+    have conv : ∀ x : Ring.Node, (x ∈ allNodes cl ∨ x ∈ (((some t.replicas.all).getD []).filterMap (resolve nodes)).map (·.1)) →
+        (x ∈ allNodes cl ∨ x ∈ nodes) := by
+      intro x hx
+      rcases hx with hx | hx
+      · exact Or.inl hx
+      · obtain ⟨r, hr, rfl⟩ := List.mem_map.mp hx
+        obtain ⟨p, _, hpr⟩ := List.mem_filterMap.mp hr
+        exact Or.inr (resolve_spec hpr).1
+    exact h.ids a b (conv a ha) (conv b hb) hid
+
+/-- **The replica lists of every history satisfy `TabletOK`**: for every history of refreshes and learnt tablets, every
+table, every token, the view the policy gets (`viewOf`: the covering tablet's list, or its per-datacenter list) fits the
+cluster - so every tablet-plan theorem of Props/C05.lean applies to the state of every history. -/
+theorem thplan_TabletOK (kss : List (String × Bool × List String)) (ops : List HOp) {cl : Cluster}
+    (spec : String × String) {nodes : List Ring.Node} (tok : Option Int) (h : NodesAgree cl (hrun kss ops) nodes) :
+    TabletOK cl (viewOf (hrun kss ops) spec nodes tok) := by
+  have hs : StateOk (hrun kss ops) := by rw [hrun_eq_crun]; exact stateOk_run _
+  have hempty : TabletOK cl (fun _ : Option Nat => ([] : List SRep)) := by
+    refine ⟨fun d r hr => (by cases hr), fun d r hr => (by cases hr), ?_⟩
+    intro a b ha hb hid
+    refine h.ids a b ?_ ?_ hid
+    · rcases ha with ha | ha
+      · exact Or.inl ha
+      · cases ha
+    · rcases hb with hb | hb
+      · exact Or.inl hb
+      · cases hb
+  unfold viewOf
+  cases tok with
+  | none => exact hempty
+  | some tk =>
+    cases htb : alGet spec (hrun kss ops).info.tables with
+    | none => exact hempty
+    | some tbl =>
+      have key : ∀ V V' : Option Nat → List SRep, (∀ dc, V dc = V' dc) → TabletOK cl V' → TabletOK cl V := by
+        intro V V' hv hV'
+        have : V = V' := funext hv
+        rw [this]; exact hV'
+      cases hl : tabletForToken tbl.tablets tk with
+      | none =>
+        refine key _ (fun _ => []) ?_ hempty
+        intro dc
+        cases dc <;> simp [dcReplicasForToken, replicasForToken, hl]
+      | some t =>
+        have hmem := hs.2 (spec, tbl) (alGet_mem' _ _ _ htb) t (lookup_mem' hl)
+        refine key _ _ ?_ (tabletOK_of_current h t hmem.1 hmem.2)
+        intro dc
+        cases dc <;> simp [dcReplicasForToken, replicasForToken, hl]
+
+private theorem known_after_learns (kss : List (String × Bool × List String))
+    (ls : List ((String × String) × Int × Int × List (Nat × Nat))) (cs : CState) :
+    ((ls.map (fun l => HOp.learn l.1 l.2.1 l.2.2.1 l.2.2.2)).foldl (hstep kss) cs).known = cs.known := by
+  induction ls generalizing cs with
+  | nil => rfl
+  | cons l ls ih => rw [List.map_cons, List.foldl_cons, ih]; rfl
+
+/-- **The datacenter clause of `NodesAgree` is what a refresh establishes**: after any history, one more refresh to the
+peers `ps` (nodes with address and verdict; equal host ids = equal nodes) and any tablets learnt afterwards, `known_nodes`
+holds for every node of `ps` an object with that node's datacenter. -/
+theorem nodesAgree_dc_of_last_refresh (kss : List (String × Bool × List String)) (ops : List HOp)
+    (ps : List ((Ring.Node × Nat) × Bool)) (learns : List ((String × String) × Int × Int × List (Nat × Nat)))
+    (hids : ∀ a ∈ ps, ∀ b ∈ ps, a.1.1.id = b.1.1.id → a.1.1 = b.1.1) :
+    ∀ n ∈ ps.map (·.1.1), ∀ k,
+      alGet n.id (hrun kss (ops ++ .refresh (ps.map toPeer) :: learns.map (fun l => .learn l.1 l.2.1 l.2.2.1 l.2.2.2))).known = some k →
+      k.node.dc = n.dc.map dcName := by
+  intro n hn k hk
+  have hsplit : hrun kss (ops ++ .refresh (ps.map toPeer) :: learns.map (fun l => .learn l.1 l.2.1 l.2.2.1 l.2.2.2)) =
+      (learns.map (fun l => HOp.learn l.1 l.2.1 l.2.2.1 l.2.2.2)).foldl (hstep kss) (refresh (hrun kss ops) (ps.map toPeer) kss) := by
+    unfold hrun
+    rw [List.foldl_append, List.foldl_cons]; rfl
+  rw [hsplit, known_after_learns] at hk
+  obtain ⟨p, hp, hpid, _, hdc, _⟩ := known_of_last_metadata _ _ kss _ k hk
+  obtain ⟨q, hq, rfl⟩ := List.mem_map.mp hp
+  obtain ⟨q', hq', rfl⟩ := List.mem_map.mp hn
+  have : q.1.1 = q'.1.1 := hids q hq q' hq' hpid
+  rw [hdc, ← this]; rfl
+
+variable (kss : List (String × Bool × List String)) (ops : List HOp) {cl : Cluster} (hwf : WF cl)
+  (spec : String × String) {nodes : List Ring.Node} (tok : Option Int) (h : NodesAgree cl (hrun kss ops) nodes)
+  (cfg : Config) (rq : Request) (ρp : RhoPick) (ρf : RhoFb)
+
+include hwf h in
+/-- **After every history, no target twice** (under the policy's comparator) in the plan of a tablet table. -/
+theorem thplan_nodup :
+    (planT cl cfg rq (viewOf (hrun kss ops) spec nodes tok) ρp ρf).Pairwise (fun a b => targetEq a b = false) :=
+  C05.tplan_no_equal_targets hwf cfg rq (thplan_TabletOK kss ops spec tok h) ρp ρf
+
+include hwf h in
+/-- **After every history, no node the host filter excludes, and only the preferred datacenter when failover is not
+permitted** (`cl.disabled` / the nodes' datacenters being those of the last metadata: `known_of_last_metadata`). -/
+theorem thplan_excludes_disabled_stays_in_dc :
+    ∀ t ∈ planT cl cfg rq (viewOf (hrun kss ops) spec nodes tok) ρp ρf, t.1.id ∉ cl.disabled ∧
+      (cfg.failover = false → ∀ d, (preference cfg rq).datacenter = some d → t.1.dc = some d) :=
+  C05.tplan_excludes_disabled_stays_in_dc hwf cfg rq (thplan_TabletOK kss ops spec tok h) ρp ρf
+
+include hwf h in
+/-- **After every history, completeness**: every enabled token-owning node the datacenter rule permits occurs. -/
+theorem thplan_complete {n : Ring.Node} (hn : n ∈ allNodes cl) (he : n.id ∉ cl.disabled) (hperm : Permitted cfg rq n) :
+    ∃ t ∈ planT cl cfg rq (viewOf (hrun kss ops) spec nodes tok) ρp ρf, t.1 = n :=
+  C05.tplan_complete hwf cfg rq (thplan_TabletOK kss ops spec tok h) ρp ρf hn he hperm
+
+include hwf h in
+/-- **After every history, order**: the shard-bearing targets - the live replicas of the covering tablet - come first. -/
+theorem thplan_replicas_first :
+    (planT cl cfg rq (viewOf (hrun kss ops) spec nodes tok) ρp ρf).Pairwise (fun a b => b.2.isSome = true → a.2.isSome = true) :=
+  C05.tplan_replicas_first hwf cfg rq (thplan_TabletOK kss ops spec tok h) ρp ρf
+
+include hwf h in
+/-- **After every history, who carries a shard**: exactly the live permitted replicas of the covering tablet as the
+state holds it, each with the tablet's shard. -/
+theorem thplan_shard_iff (n : Ring.Node) (s : Nat) :
+    (n, some s) ∈ planT cl cfg rq (viewOf (hrun kss ops) spec nodes tok) ρp ρf ↔
+      (tokenAware cl cfg rq = true ∧ (n, s) ∈ viewOf (hrun kss ops) spec nodes tok none ∧ cl.alive n = true ∧
+        Permitted cfg rq n) :=
+  C05.tplan_shard_iff hwf cfg rq (thplan_TabletOK kss ops spec tok h) ρp ρf n s
+
+end planOnHistory
+
 /-! non-vacuity: node 1 is learnt as the replica of a tablet while accepted in `dc1`; the next refresh reports it in
 `dc2` and the host filter rejects it - no node is removed, no replica is unknown.  The tablet then holds the NEW object
 (generation 2, `dc2`), which `known_nodes` reports as disabled. -/
@@ -200,5 +414,41 @@ example :
     let cs := hrun (kssOf 1) ops
     (cs.info.tables.map (fun e => e.2.tablets.map (fun t => t.replicas.all))) = [[[(⟨1, some "dc2", 2⟩, 3)]]] ∧
       (alGet 1 cs.known).map (·.enabled) = some false ∧ staleReps cs = [] := by decide
+
+/-! non-vacuity of `NodesAgree` / `thplan_TabletOK` on the example cluster of Props/C05.lean (`exCluster`, which is `WF`):
+node 3 is learnt as a replica while in datacenter 1 and is re-created in datacenter 0 by the last refresh (nobody leaves);
+the view after the history names node 3 with the datacenter of the last metadata. -/
+section example_history
+open ScyllaVerif.Plan ScyllaVerif.Routing
+
+private def exNodes : List Ring.Node :=
+  [⟨1, some 0, some 1⟩, ⟨2, some 0, some 1⟩, ⟨5, some 1, some 1⟩, ⟨3, some 0, some 3⟩, ⟨4, some 1, none⟩,
+   ⟨6, some 1, some 2⟩, ⟨7, some 0, some 2⟩]
+private def exPs : List ((Ring.Node × Nat) × Bool) := exNodes.zipIdx.map (fun (n, i) => ((n, i), n.id != 7))
+private def exPs0 : List ((Ring.Node × Nat) × Bool) :=
+  exPs.map (fun p => if p.1.1.id = 3 then ((({ p.1.1 with dc := some 1 } : Ring.Node), p.1.2), p.2) else p)
+private def exOps : List HOp := [.refresh (exPs0.map toPeer), .learn ("k0", "t") 1 9 [(3, 2), (5, 1)]]
+
+private theorem exAgree : NodesAgree C05.exCluster (hrun (kssOf 2) (exOps ++ [.refresh (exPs.map toPeer)])) exNodes := by
+  refine ⟨?_, ?_⟩
+  · have := nodesAgree_dc_of_last_refresh (kssOf 2) exOps exPs [] (by decide)
+    intro n hn
+    exact this n (by revert n; decide)
+  · have hall : allNodes C05.exCluster = exNodes := by decide
+    rw [hall]
+    have : ∀ a ∈ exNodes, ∀ b ∈ exNodes, a.id = b.id → a = b := by decide
+    intro a b ha hb
+    exact this a (by rcases ha with h | h <;> exact h) b (by rcases hb with h | h <;> exact h)
+
+example : C05.TabletOK C05.exCluster
+    (viewOf (hrun (kssOf 2) (exOps ++ [.refresh (exPs.map toPeer)])) ("k0", "t") exNodes (some 5)) :=
+  thplan_TabletOK (kssOf 2) _ ("k0", "t") (some 5) exAgree
+
+example : (viewOf (hrun (kssOf 2) (exOps ++ [.refresh (exPs.map toPeer)])) ("k0", "t") exNodes (some 5) none).map
+      (fun r => (r.1.id, r.1.dc, r.2)) = [(3, some 0, 2), (5, some 1, 1)] ∧
+    (viewOf (hrun (kssOf 2) (exOps ++ [.refresh (exPs.map toPeer)])) ("k0", "t") exNodes (some 5) (some 0)).map
+      (fun r => (r.1.id, r.2)) = [(3, 2)] := by decide
+
+end example_history
 
 end ScyllaVerif.Props.C05Tablets
